@@ -1220,6 +1220,8 @@ class Executor(object):
             if rd.readonly:
                 self.oob('store to read-only %r' % rd)
                 raise PathEnd()
+            if 'memcpy' in what and dst != src and dst < src + n and src < dst + n:
+                self.ub(('memcpy-overlap', what), 'memcpy() called with overlapping buffers (%#x, %#x, %d)' % (dst, src, n))
             bs = [mem.load_byte(src + i, rs) for i in range(n)]
             if mem.log is not None:
                 mem.log.append(('copy', dst, n, src))
@@ -1554,6 +1556,11 @@ def _memcpy(ex, d, s, n):
     return d
 
 
+def _memmove(ex, d, s, n):
+    ex.memcpy(d, s, n, 'memmove')
+    return d
+
+
 def _memset(ex, d, c, n):
     ex.memset(d, c, n)
     return d
@@ -1575,6 +1582,6 @@ def _abort(ex, *a):
 
 LIBC = {
     'strlen': _strlen, 'strcmp': _strcmp, 'strncmp': _strncmp, 'memcmp': _memcmp,
-    'memcpy': _memcpy, 'memmove': _memcpy, 'memset': _memset, 'memchr': _memchr,
+    'memcpy': _memcpy, 'memmove': _memmove, 'memset': _memset, 'memchr': _memchr,
     'abort': _abort,
 }
